@@ -281,7 +281,7 @@ inductive Op where
   | aremovei (v : Nat) (i : Nat) | aremove (v : Nat) (pos : Nat)
   | aremoveFront (v : Nat) | aremoveBack (v : Nat)
   | aclear (v : Nat) | aswap (v : Nat) | afind (v : Nat) (x : Int)
-  | aget (v : Nat) (i : Nat) | afront (v : Nat) | aback (v : Nat)
+  | aget (v : Nat) (i : Nat) | afront (v : Nat) | aback (v : Nat) | aeq (v : Nat) (w : Nat)
 
 namespace State
 
@@ -386,6 +386,12 @@ def step (s : State) (op : Op) : Option (Res State) :=
   | .aget v i => if ok v then liftA s v ((s.getA v).get i) else none
   | .afront v => if ok v then liftA s v (s.getA v).front else none
   | .aback v => if ok v then liftA s v (s.getA v).back else none
+  | .aeq v w =>
+    -- `operator==`: `if(size() != other.size()) return false;` then element-wise comparison
+    if ok v ∧ ok w then
+      some { st := s, ret := some (if (s.getA v).size ≠ (s.getA w).size then 0
+                                  else if (s.getA v).elems = (s.getA w).elems then 1 else 0) }
+    else none
 
 /-- run a history; an operation whose precondition fails is skipped (it is not part of a
     well-formed history; `Props` quantifies over all op lists, so skipped ops are covered too) -/
